@@ -402,7 +402,18 @@ def handle(job):
         if job.get('then'):
             r2 = apply(job['then'])
             rec['then'] = {'op': job['then'], 'ret': r2['ret'], 'post': storeobs.observe(OWN)}
-        return {'recs': [rec]}
+        recs = [rec]
+        # ... and stays usable for whatever comes next: further operations are recorded as
+        # ordinary steps (a remove after a failed add must still take everything with it)
+        prev = rec['then']['post'] if job.get('then') else post
+        for op in job.get('then_chain', []):
+            r3 = apply(op)
+            cur = storeobs.observe(OWN)
+            step = {'op': op, 'pre': prev, 'post': cur}
+            step.update(r3)
+            recs.append(step)
+            prev = cur
+        return {'recs': recs}
     if mode == 'iso':
         # a second connection looks at the database at every callback of the operation
         load_snapshot(job.get('snap'))
